@@ -703,6 +703,47 @@ fn check_long_list(big: f64, d: f64, n: usize, cc: &mut CaseCtx) {
                 }
             }
         }
+        // the same list through the cumulative sum (a chain of binary additions): every prefix
+        // sum is an n-ary sum in its own right; checked at the half-way point and at the end
+        match guard(|| LogProb::ln_cumsum_exp(v.iter().cloned()).map(|x| *x).collect::<Vec<f64>>()) {
+            Err(m) => a.fail("ln_cumsum_exp", "panic", || format!("1 + {} x e^-{}: {}", n, d, m)),
+            Ok(cs) => {
+                if cs.len() != v.len() {
+                    a.fail("ln_cumsum_exp", "wrong-length", || format!("{} items for {} operands", cs.len(), v.len()));
+                } else {
+                    for idx in [v.len() / 2, v.len() - 1] {
+                        let r = cs[idx];
+                        a.obs(r);
+                        let small = if pos <= idx { idx } else { idx + 1 };
+                        let has_big = pos <= idx;
+                        // relative to the largest operand of the whole list (the bound's reference)
+                        let want = if has_big { 1.0 } else { 0.0 } + small as f64 * (-d).exp();
+                        let got = (r - big).exp();
+                        if r.is_nan() {
+                            a.fail("ln_cumsum_exp", "nan", || format!("prefix {} of 1 + {} x e^-{} gives NaN", idx + 1, n, d));
+                        } else if !((got - want).abs() <= TOL) {
+                            a.fail("ln_cumsum_exp", "error-above-bound", || {
+                                format!("largest operand {} (at index {}) and {} operands {} nats below it, prefix of {} items: relative to the largest operand got {} expected {}", big, pos, n, d, idx + 1, got, want)
+                            });
+                        }
+                    }
+                }
+            }
+        }
+        // and through an explicit fold over ln_add_exp
+        match guard(|| *v.iter().fold(LogProb::ln_zero(), |acc, &x| acc.ln_add_exp(x))) {
+            Err(m) => a.fail("ln_add_exp", "panic", || format!("fold over 1 + {} x e^-{}: {}", n, d, m)),
+            Ok(r) => {
+                a.obs(r);
+                let got = (r - big).exp();
+                let want = 1.0 + n as f64 * (-d).exp();
+                if r.is_nan() {
+                    a.fail("ln_add_exp", "nan", || format!("fold over 1 + {} x e^-{} gives NaN", n, d));
+                } else if !((got - want).abs() <= TOL) {
+                    a.fail("ln_add_exp", "error-above-bound", || format!("fold over the list (largest operand {} at index {}, {} operands {} nats below): relative to the largest operand got {} expected {}", big, pos, n, d, got, want));
+                }
+            }
+        }
     }
     a.finish(cc)
 }
